@@ -63,6 +63,11 @@ pub fn check_ttl(h: &Hist, want: &[&str]) -> TtlOutcome {
     let mut expired_seen = 0u64;
     let mut ttl_to_none = 0u64;
     let mut shared_bucket_update = 0u64;
+    let c09 = want.contains(&"C09");
+    let mut c09_keys: std::collections::BTreeSet<u64> = Default::default();
+    let mut ifpresent_updates = 0u64;
+    let mut ifpresent_absent = 0u64;
+    let mut vetoes = 0u64;
     // charge each value had when last seen in a quiescent snapshot
     let mut charge_of: BTreeMap<u64, i64> = BTreeMap::new();
     // obligations: expired entries that must be reclaimed
@@ -101,6 +106,13 @@ pub fn check_ttl(h: &Hist, want: &[&str]) -> TtlOutcome {
                         } else {
                             m.ambiguous.insert(*k);
                         }
+                        if vetoed_in(h, o) {
+                            // the validator vetoed the replacement: value and TTL stay as they were
+                            c09_keys.insert(*k);
+                            vetoes += 1;
+                            m.dirty.insert(*k, o.ret_seq.unwrap());
+                            continue;
+                        }
                         match res {
                             Res::Bool(true) => {
                                 if let Some(prev) = &had {
@@ -135,6 +147,51 @@ pub fn check_ttl(h: &Hist, want: &[&str]) -> TtlOutcome {
                             }
                             _ => {}
                         }
+                    }
+                    (Op::InsertIfPresent { k, .. }, res) => {
+                        c09_keys.insert(*k);
+                        let prev_dirty = m.dirty.get(k).copied().unwrap_or(0);
+                        let was_settled = settled(h, prev_dirty, o.inv_seq) && !m.ambiguous.contains(k);
+                        let vetoed = vetoed_in(h, o);
+                        let ok = matches!(res, Res::Bool(true));
+                        if !matches!(res, Res::Bool(_)) {
+                            continue;
+                        }
+                        match m.map.get(k).cloned() {
+                            Some(e) => {
+                                let surely_live = e.exp.map_or(true, |(lo, _)| o.ret_now < lo);
+                                if vetoed {
+                                    if ok && c09 {
+                                        out.violations.push(violk("C09", "R-veto-ignored", o.ret_seq.unwrap(), *k, "insert_if_present returned true although the validator vetoed the replacement", format!("{:?} over {:?}", o.val, e.val)));
+                                    }
+                                } else if ok {
+                                    let idx = h.index_of(*k);
+                                    must_reclaim.retain(|(z, _)| h.index_of(z.val.key) != idx);
+                                    m.zombies.retain(|z| h.index_of(z.val.key) != idx);
+                                    m.map.insert(*k, MEntry { val: o.val.unwrap(), ttl: 0, exp: None, write_seq: o.ret_seq.unwrap(), op: i });
+                                    ifpresent_updates += 1;
+                                } else if was_settled && surely_live && c09 {
+                                    out.violations.push(violk("C09", "R-ifpresent-refused-on-resident", o.ret_seq.unwrap(), *k, "insert_if_present returned false on a resident key", format!("key {} holds {:?}", k, e.val)));
+                                }
+                            }
+                            None => {
+                                let zombie = m.zombies.iter().any(|z| z.val.key == *k);
+                                if ok && !zombie && was_settled {
+                                    if c09 {
+                                        out.violations.push(violk("C09", "R-ifpresent-created", o.ret_seq.unwrap(), *k, "insert_if_present returned true on an absent key", format!("key {} absent in the reference map; value {:?}", k, o.val)));
+                                    }
+                                } else if ok {
+                                    // revived an expired-but-unreclaimed entry (or state unknown)
+                                    let idx = h.index_of(*k);
+                                    must_reclaim.retain(|(z, _)| h.index_of(z.val.key) != idx);
+                                    m.zombies.retain(|z| h.index_of(z.val.key) != idx);
+                                    m.map.insert(*k, MEntry { val: o.val.unwrap(), ttl: 0, exp: None, write_seq: o.ret_seq.unwrap(), op: i });
+                                } else {
+                                    ifpresent_absent += 1;
+                                }
+                            }
+                        }
+                        m.dirty.insert(*k, o.ret_seq.unwrap());
                     }
                     (Op::Remove { k }, _) => {
                         let prev_dirty = m.dirty.get(k).copied().unwrap_or(0);
@@ -224,10 +281,11 @@ pub fn check_ttl(h: &Hist, want: &[&str]) -> TtlOutcome {
                         let found = entries.iter().find(|x| x.index == idx);
                         match found {
                             Some(x) if x.val.id == e.val.id => {}
-                            other => out.violations.push(viol(
+                            other => out.violations.push(violk(
                                 "C04",
                                 "R-lost",
                                 cp.seq,
+                                *k,
                                 if e.ttl == 0 { "entry without TTL missing from the store" } else { "unexpired entry missing from the store" },
                                 format!("checkpoint {} t={}: key {} should hold {:?} (ttl={}ns exp={:?}), store has {:?}", cp.id, t, k, e.val, e.ttl, e.exp, other.map(|x| x.val)),
                             )),
@@ -239,10 +297,11 @@ pub fn check_ttl(h: &Hist, want: &[&str]) -> TtlOutcome {
                         let zombie = m.zombies.iter().any(|e| e.val.id == x.val.id);
                         let unsettled = m.dirty.get(&x.val.key).map_or(false, |d| !settled(h, *d, cp.seq)) || m.ambiguous.contains(&x.val.key);
                         if !known_live && !zombie && !unsettled {
-                            out.violations.push(viol(
+                            out.violations.push(violk(
                                 "C04",
                                 "R-ghost",
                                 cp.seq,
+                                x.val.key,
                                 "store holds an entry the reference map does not",
                                 format!("checkpoint {} t={}: store has {:?} for index {}, model has {:?}", cp.id, t, x.val, x.index, m.map.get(&x.val.key).map(|e| e.val)),
                             ));
@@ -342,7 +401,27 @@ pub fn check_ttl(h: &Hist, want: &[&str]) -> TtlOutcome {
         }
     }
     let _ = last_clear_inv;
-    out.nontrivial = expired_seen > 0 || ttl_to_none > 0 || shared_bucket_update > 0;
+    if c09 {
+        // value / TTL / presence violations on keys touched by insert_if_present or a veto are C09's
+        let mut extra = Vec::new();
+        for v in out.violations.iter() {
+            if (v.prop == "C03" || v.prop == "C04") && v.key.map_or(false, |k| c09_keys.contains(&k)) {
+                let mut w = v.clone();
+                w.prop = "C09".into();
+                w.rule = format!("{}-after-conditional-write", v.rule);
+                w.fingerprint = format!("after insert_if_present / validator veto: {}", v.fingerprint);
+                extra.push(w);
+            }
+        }
+        out.violations.extend(extra);
+        out.probes.insert("insert_if_present_on_resident", ifpresent_updates);
+        out.probes.insert("insert_if_present_on_absent", ifpresent_absent);
+        out.probes.insert("validator_veto", vetoes);
+        if ifpresent_updates + ifpresent_absent + vetoes > 0 {
+            out.nontrivial = true;
+        }
+    }
+    out.nontrivial |= expired_seen > 0 || ttl_to_none > 0 || shared_bucket_update > 0;
     out.probes.insert("expired_entry_observed", expired_seen);
     out.probes.insert("ttl_to_no_ttl_reinsert", ttl_to_none);
     out.probes.insert("ttl_update_of_resident", shared_bucket_update);
@@ -375,10 +454,10 @@ fn lookup_check(h: &Hist, out: &mut TtlOutcome, m: &Model, k: u64, o: &OpRec, go
                 let z = m.zombies.iter().find(|z| z.val.id == v.id);
                 if let Some(z) = z {
                     if c03 {
-                        out.violations.push(viol("C03", "R-served-after-ttl", o.ret_seq.unwrap(), "expired entry returned by a lookup", format!("{}({}) at [{},{}] returned {:?} whose deadline was <= {:?}", o.op.name(), k, o.inv_now, o.ret_now, v, z.exp)));
+                        out.violations.push(violk("C03", "R-served-after-ttl", o.ret_seq.unwrap(), k, "expired entry returned by a lookup", format!("{}({}) at [{},{}] returned {:?} whose deadline was <= {:?}", o.op.name(), k, o.inv_now, o.ret_now, v, z.exp)));
                     }
                 } else if c04 {
-                    out.violations.push(viol("C04", "R-phantom", o.ret_seq.unwrap(), "lookup returned a value the reference map does not hold", format!("{}({}) returned {:?}", o.op.name(), k, v)));
+                    out.violations.push(violk("C04", "R-phantom", o.ret_seq.unwrap(), k, "lookup returned a value the reference map does not hold", format!("{}({}) returned {:?}", o.op.name(), k, v)));
                 }
             }
         }
@@ -394,10 +473,10 @@ fn lookup_check(h: &Hist, out: &mut TtlOutcome, m: &Model, k: u64, o: &OpRec, go
                 Some(v) => {
                     if v.id != e.val.id {
                         if c04 {
-                            out.violations.push(viol("C04", "R-wrong-value", o.ret_seq.unwrap(), "lookup returned another value than the last one written", format!("{}({}) returned {:?}, model {:?}", o.op.name(), k, v, e.val)));
+                            out.violations.push(violk("C04", "R-wrong-value", o.ret_seq.unwrap(), k, "lookup returned another value than the last one written", format!("{}({}) returned {:?}, model {:?}", o.op.name(), k, v, e.val)));
                         }
                     } else if must_not && c03 {
-                        out.violations.push(viol("C03", "R-served-after-ttl", o.ret_seq.unwrap(), "entry returned after its TTL elapsed", format!("{}({}) at [{},{}] returned {:?}; ttl={} deadline in {:?}", o.op.name(), k, o.inv_now, o.ret_now, v, e.ttl, e.exp)));
+                        out.violations.push(violk("C03", "R-served-after-ttl", o.ret_seq.unwrap(), k, "entry returned after its TTL elapsed", format!("{}({}) at [{},{}] returned {:?}; ttl={} deadline in {:?}", o.op.name(), k, o.inv_now, o.ret_now, v, e.ttl, e.exp)));
                     }
                     if let (Some(t), true) = (ttl, c03) {
                         ttl_value_check(out, e, o, t);
@@ -407,13 +486,13 @@ fn lookup_check(h: &Hist, out: &mut TtlOutcome, m: &Model, k: u64, o: &OpRec, go
                     if must_see && !over_cap {
                         if e.ttl == 0 {
                             if c03 {
-                                out.violations.push(viol("C03", "R-no-ttl-vanished", o.ret_seq.unwrap(), "entry inserted without TTL became invisible", format!("{}({}) at t={} returned nothing; last write {:?} (no TTL) at seq {}", o.op.name(), k, o.ret_now, e.val, e.write_seq)));
+                                out.violations.push(violk("C03", "R-no-ttl-vanished", o.ret_seq.unwrap(), k, "entry inserted without TTL became invisible", format!("{}({}) at t={} returned nothing; last write {:?} (no TTL) at seq {}", o.op.name(), k, o.ret_now, e.val, e.write_seq)));
                             }
                             if c04 {
-                                out.violations.push(viol("C04", "R-lost", o.ret_seq.unwrap(), "entry without TTL missing from the store", format!("{}({}) at t={} returned nothing; last write {:?} (no TTL)", o.op.name(), k, o.ret_now, e.val)));
+                                out.violations.push(violk("C04", "R-lost", o.ret_seq.unwrap(), k, "entry without TTL missing from the store", format!("{}({}) at t={} returned nothing; last write {:?} (no TTL)", o.op.name(), k, o.ret_now, e.val)));
                             }
                         } else if c04 {
-                            out.violations.push(viol("C04", "R-lost", o.ret_seq.unwrap(), "unexpired entry missing from the store", format!("{}({}) at t={} returned nothing; last write {:?} ttl={} deadline>= {:?}", o.op.name(), k, o.ret_now, e.val, e.ttl, e.exp)));
+                            out.violations.push(violk("C04", "R-lost", o.ret_seq.unwrap(), k, "unexpired entry missing from the store", format!("{}({}) at t={} returned nothing; last write {:?} ttl={} deadline>= {:?}", o.op.name(), k, o.ret_now, e.val, e.ttl, e.exp)));
                         }
                     }
                 }
@@ -428,7 +507,7 @@ fn ttl_value_check(out: &mut TtlOutcome, e: &MEntry, o: &OpRec, t: u64) {
     match (e.ttl, ins_inv, ins_ret) {
         (0, _, _) => {
             if t != u64::MAX {
-                out.violations.push(viol("C03", "R-ttl-of-no-ttl", o.ret_seq.unwrap(), "entry without TTL reports an expiry", format!("{}({}) reported ttl {}ns for {:?}", o.op.name(), e.val.key, t, e.val)));
+                out.violations.push(violk("C03", "R-ttl-of-no-ttl", o.ret_seq.unwrap(), e.val.key, "entry without TTL reports an expiry", format!("{}({}) reported ttl {}ns for {:?}", o.op.name(), e.val.key, t, e.val)));
             }
         }
         (d, Some(ii), Some(ir)) => {
@@ -436,10 +515,10 @@ fn ttl_value_check(out: &mut TtlOutcome, e: &MEntry, o: &OpRec, t: u64) {
             let lo = d.saturating_sub(o.ret_now.saturating_sub(ii));
             let hi = d.saturating_sub(o.inv_now.saturating_sub(ir));
             if t == u64::MAX || t > d || t < lo || t > hi {
-                out.violations.push(viol(
+                out.violations.push(violk(
                     "C03",
                     "R-ttl-value",
-                    o.ret_seq.unwrap(),
+                    o.ret_seq.unwrap(), e.val.key,
                     "reported remaining TTL outside the possible interval",
                     format!("{}({}) reported {}ns; ttl={} insert@[{},{}] lookup@[{},{}] allows [{},{}]", o.op.name(), e.val.key, t, d, ii, ir, o.inv_now, o.ret_now, lo, hi),
                 ));
@@ -460,10 +539,10 @@ fn ttl_check(h: &Hist, out: &mut TtlOutcome, m: &Model, k: u64, o: &OpRec, t: Op
             if let Some(t) = t {
                 if m.zombies.iter().any(|z| z.val.key == k) {
                     if c03 {
-                        out.violations.push(viol("C03", "R-ttl-after-expiry", o.ret_seq.unwrap(), "get_ttl reports an entry whose TTL has elapsed", format!("get_ttl({}) = {}ns at t={}", k, t, o.inv_now)));
+                        out.violations.push(violk("C03", "R-ttl-after-expiry", o.ret_seq.unwrap(), k, "get_ttl reports an entry whose TTL has elapsed", format!("get_ttl({}) = {}ns at t={}", k, t, o.inv_now)));
                     }
                 } else if c04 {
-                    out.violations.push(viol("C04", "R-phantom", o.ret_seq.unwrap(), "get_ttl reports an entry the reference map does not hold", format!("get_ttl({}) = {}", k, t)));
+                    out.violations.push(violk("C04", "R-phantom", o.ret_seq.unwrap(), k, "get_ttl reports an entry the reference map does not hold", format!("get_ttl({}) = {}", k, t)));
                 }
             }
         }
@@ -475,7 +554,7 @@ fn ttl_check(h: &Hist, out: &mut TtlOutcome, m: &Model, k: u64, o: &OpRec, t: Op
             match t {
                 Some(t) => {
                     if must_not && c03 {
-                        out.violations.push(viol("C03", "R-ttl-after-expiry", o.ret_seq.unwrap(), "get_ttl reports an entry whose TTL has elapsed", format!("get_ttl({}) = {}ns at [{},{}], deadline {:?}", k, t, o.inv_now, o.ret_now, e.exp)));
+                        out.violations.push(violk("C03", "R-ttl-after-expiry", o.ret_seq.unwrap(), k, "get_ttl reports an entry whose TTL has elapsed", format!("get_ttl({}) = {}ns at [{},{}], deadline {:?}", k, t, o.inv_now, o.ret_now, e.exp)));
                     } else if c03 {
                         ttl_value_check(out, e, o, t);
                     }
@@ -483,14 +562,20 @@ fn ttl_check(h: &Hist, out: &mut TtlOutcome, m: &Model, k: u64, o: &OpRec, t: Op
                 None => {
                     if must_see && !over_cap {
                         if e.ttl == 0 && c03 {
-                            out.violations.push(viol("C03", "R-no-ttl-vanished", o.ret_seq.unwrap(), "entry inserted without TTL became invisible", format!("get_ttl({}) at t={} returned nothing; last write {:?} (no TTL)", k, o.ret_now, e.val)));
+                            out.violations.push(violk("C03", "R-no-ttl-vanished", o.ret_seq.unwrap(), k, "entry inserted without TTL became invisible", format!("get_ttl({}) at t={} returned nothing; last write {:?} (no TTL)", k, o.ret_now, e.val)));
                         }
                         if c04 {
-                            out.violations.push(viol("C04", "R-lost", o.ret_seq.unwrap(), if e.ttl == 0 { "entry without TTL missing from the store" } else { "unexpired entry missing from the store" }, format!("get_ttl({}) at t={} returned nothing; model {:?} exp {:?}", k, o.ret_now, e.val, e.exp)));
+                            out.violations.push(violk("C04", "R-lost", o.ret_seq.unwrap(), k, if e.ttl == 0 { "entry without TTL missing from the store" } else { "unexpired entry missing from the store" }, format!("get_ttl({}) at t={} returned nothing; model {:?} exp {:?}", k, o.ret_now, e.val, e.exp)));
                         }
                     }
                 }
             }
         }
     }
+}
+
+/// true if the validator vetoed the replacement attempted by this operation
+fn vetoed_in(h: &Hist, o: &OpRec) -> bool {
+    let Some(v) = o.val else { return false };
+    h.evs.iter().any(|e| e.seq > o.inv_seq && e.seq < o.ret_seq_or_max() && matches!(&e.kind, EvKind::Validate { curr, ok: false, .. } if curr.id == v.id))
 }
